@@ -661,6 +661,12 @@ func checkBucketOrder(bs []*stack.Bucket, byID map[int]*MG, bad func(string)) {
 		if b.First && i != 0 {
 			bad("the bucket with the crashing goroutine is not first")
 		}
+		// by membership, not by the bucket's own flag
+		for _, id := range b.IDs {
+			if g := byID[id]; g != nil && g.First && i != 0 {
+				bad(fmt.Sprintf("the bucket %v that holds the crashing goroutine %d is at position %d, not first", b.IDs, id, i))
+			}
+		}
 	}
 	for i := 0; i < len(bs); i++ {
 		for j := i + 1; j < len(bs); j++ {
